@@ -4,6 +4,8 @@ import Spq.Drv.Util
   driver family `vz`:
     vz <op> nn p k res rsz rsl a asz asl b bsz bsl | cell_0 … cell_{S-1}
   answer:  <ok:0|1> cell_0 … cell_{S-1}
+  ops `big_normalize` (asl ignored) and `range_normalize` (a = base of the big vector, asz = begin,
+  asl = end, b = step; bsz, bsl ignored) reuse the same argument slots.
   family `kz` (single-polynomial kernels, int64):
     kz <op> nn p k | in_0 … in_{nn-1} [| second operand]
 -/
@@ -30,6 +32,10 @@ def handleVz (args : List String) : Option String :=
       | "rotate" => some (VecZnx.rotate o nn p h res rsz rsl a asz asl)
       | "automorphism" => some (VecZnx.automorphism o nn p h res rsz rsl a asz asl)
       | "normalize" => some (VecZnx.normalize nn k h res rsz rsl a asz asl)
+      -- big variant: `asl` is ignored (the stride of a VEC_ZNX_BIG is nn)
+      | "big_normalize" => some (VecZnx.bigNormalize nn k h res rsz rsl a asz)
+      -- range variant: a = base of the big vector, asz = range begin, asl = range end, b = range step
+      | "range_normalize" => some (VecZnx.bigRangeNormalize nn k h res rsz rsl a asz asl b)
       | _ => none
     r.map fun h' => (if h'.ok then "1 " else "0 ") ++ joinInts h'.mem
   | _ => none
